@@ -355,8 +355,8 @@ def cbmc_cmd(u, inst, extra=()):
     if uws: cmd += ['--unwindset', ','.join('%s:%d' % kv for kv in sorted(uws.items()))]
     cmd += ['--object-bits', str(inst.objbits or 11)]
     if inst.leak: cmd += ['--memory-leak-check']
-    if '--sat-solver' not in inst.flags and '--external-sat-solver' not in inst.flags:
-        cmd += ['--sat-solver', 'cadical']   # measured: arithmetic equivalence queries MiniSat does not finish in 200 s take 4 s
+    # SAT back end: CBMC's default (MiniSat2) is lighter on queries with tens of thousands of properties; instances that are arithmetic
+    # equivalence queries pass flags=['--sat-solver','cadical'] (measured: 4 s instead of no answer in 200 s)
     cmd += list(inst.flags) + list(extra)
     return cmd
 
